@@ -90,6 +90,14 @@ Theorem C09_writes_in_send_order :
 Proof. exact writes_in_send_order. Qed.
 Print Assumptions C09_writes_in_send_order.
 
+Theorem C09_writes_in_send_order_at_quiescence :
+  forall ops nodes,
+    Forall parks_only ops -> StronglySorted Z.lt (sent_tags ops) ->
+    let s := quiesce true (frun true finit ops) nodes in
+    forall a k t1 b t2, f_written s = a ++ (k, t1) :: b -> In (k, t2) b -> t1 < t2.
+Proof. exact writes_in_send_order_quiesced. Qed.
+Print Assumptions C09_writes_in_send_order_at_quiescence.
+
 (* the known finding C09:direct-race is exactly a violation of that order *)
 Theorem C09_send_order_direct_race_refuted :
   exists ops a k t1 b t2,
